@@ -42,6 +42,11 @@ def pyBool (s : List α) : Bool := !s.isEmpty
 /-- `len(s)` -/
 def pyLen (s : List α) : Nat := s.length
 
+/-- the celtypes wrappers around the native results (which CEL class a result carries is C13's subject) -/
+def celBool (b : Bool) : Bool := b
+def celInt (n : Nat) : Nat := n
+def celStr (s : Str) : Str := s
+
 /-- `c7nlib.intersect`: `BoolType(bool(set(left) & set(right)))` -/
 def intersect (left right : List α) : Bool := pyBool (pyAnd (pySet left) (pySet right))
 /-- `c7nlib.difference`: `BoolType(bool(set(left) - set(right)))` -/
@@ -186,14 +191,14 @@ def parseGlob : Str → List GItem
     if c = 42 then .star :: parseGlob p
     else if c = 63 then .any :: parseGlob p
     else if c = 91 then
-      match h : scanSet p with
+      match _h : scanSet p with
       | some (neg, body, rest) => .set neg (setItems body) :: parseGlob rest
       | none => .lit 91 :: parseGlob p
     else .lit c :: parseGlob p
 termination_by p => p.length
 decreasing_by
   all_goals simp_wf
-  all_goals first | omega | (have := scanSet_lt h; omega)
+  all_goals first | omega | (have := scanSet_lt _h; omega)
 
 /-- all suffixes of a string, longest first -/
 def tails : Str → List Str
